@@ -102,8 +102,13 @@ def run_indep(scn):
 
 
 def gen_repro(r, tier):
-    if r.random() < 0.5:
+    k = r.random()
+    if k < 0.35:
         scn = sysgen.gen_generated(r, None, tier)
+    elif k < 0.65:
+        # pre-emption load: several write-outs finishing in one tick, ties, retries - where ordering by
+        # identifier or hash would show
+        scn = sysgen.gen_preempt(r, tier, offgrid=False)
     else:
         scn = sysgen.gen(r, None, "C07", tier)
     if scn["cfg"]["algo"] == "priority-pool":
